@@ -122,8 +122,17 @@ def check(cx):
             from_get = [g for g in f.calls() if g.callee == getter and op_local({"c": g.dst}) in cl and f.dominates(g.bb, c.bb)]
             adds = [s for b in f.blocks for s in b["stmts"] if s["dst"][0] in cl and s["rv"].get("r") == "bin"
                     and s["rv"]["op"] in ("Add", "AddWithOverflow") and any((op_const(o) or {}).get("v") == 1 for o in s["rv"]["o"])]
-            cx.verdict(f.id == owner and bool(from_get) and bool(adds), r2b, "%s@%s" % (setter.rsplit("::", 1)[-1], f.id), c.where(),
-                       "stores getter()+1", "%s stores a value that is not current+1 (or from an unexpected place %s)" % (setter, f.id))
+            # one critical section: a write guard acquired before the read is still held at the store
+            from axvlib import locks as _locks
+            if not hasattr(cx, "_lockfacts"):
+                cx._lockfacts = _locks.LockFacts(p)
+            held = cx._lockfacts.held_at.get(f.id, {})
+            same_guard = any(any(m == "w" for g_, (cl_, m) in held.get(c.bb, {}).items() if g_ in held.get(g.bb, {}))
+                             for g in from_get)
+            cx.verdict(f.id == owner and bool(from_get) and bool(adds) and same_guard, r2b, "%s@%s" % (setter.rsplit("::", 1)[-1], f.id), c.where(),
+                       "stores getter()+1 under the write guard it was read under",
+                       "%s stores a value that is not current+1 read under the same write guard (in %s; read in the same function: %s, "
+                       "same guard: %s): two concurrent callers can obtain the same id" % (setter, f.id, bool(from_get), same_guard))
 
     # ---- C09.3 cache capacity is configuration ------------------------------------------------------------
     r3 = cx.rule("C09.3", "WMC: PageCache.capacity is written only by its constructors/setter (a checkpoint or clear() "
